@@ -73,7 +73,7 @@ def bursts(max_len=7):
             kk = kind if not mix or k % 2 == 0 else ('t' if kind == 'x' else 'x')
             out.append([kk, ['last%d' % which, 0]])
         return out
-    length = st.one_of(st.integers(2, max_len), st.integers(2, max_len), st.integers(2, max_len), st.integers(max_len, 26))
+    length = st.integers(2, max_len) if max_len <= 8 else st.one_of(st.integers(2, 7), st.integers(2, 7), st.integers(7, max_len))
     return st.builds(build, st.sampled_from(['x', 'x', 't']), st.tuples(st.sampled_from(['x0', 'xL', 'corner', 'tT', 't0', 'any']),
                      st.integers(0, 10**6)).map(list), st.integers(0, 1), length, st.booleans())
 
@@ -85,10 +85,12 @@ def graded_histories(max_ops=40, **kw):
     return st.lists(piece, min_size=min(4, max(1, max_ops // 6)), max_size=max(4, max_ops // 3)).map(lambda ll: [op for l in ll for op in l][:max_ops])
 
 
-def histories(max_ops=40, **kw):
+def histories(max_ops=40, deep=False, **kw):
+    """deep=True mixes in bursts of up to 26 successive bisections of one spot (element sizes down to 2^-26 of a root):
+    only for the pure mesh properties -- the integral operators assert panel widths > 1e-7 / 1e-5"""
     o = ops(**kw)
-    if max_ops >= 30 and 't' in kw.get('allow', ('t',)) and 'x' in kw.get('allow', ('x',)):
-        deep = st.tuples(st.lists(o, max_size=6), bursts(), st.lists(o, max_size=6), bursts(), st.lists(o, max_size=4)).map(
+    if deep and max_ops >= 30 and 't' in kw.get('allow', ('t',)) and 'x' in kw.get('allow', ('x',)):
+        deep = st.tuples(st.lists(o, max_size=6), bursts(26), st.lists(o, max_size=6), bursts(26), st.lists(o, max_size=4)).map(
             lambda t: (t[0] + t[1] + t[2] + t[3] + t[4])[:max(max_ops, 40)])
     else:
         deep = st.lists(o, min_size=0, max_size=6)
